@@ -239,10 +239,15 @@ theorem userIO_WLe (w : World) (u : Nat) : WLe w (userIO w u) := by
   dsimp only
   split
   · refine ⟨?_, rfl⟩
+    generalize hb0 : (if roomShort (w.users.get u).buf.length = true then [] else (w.users.get u).buf) = b0
+    have hle : wlen b0 ≤ wlen (w.users.get u).buf := by
+      rw [← hb0]; split
+      · simp [wlen]
+      · exact Nat.le_refl _
     have h1 := usersWeight_upd w.users u
-      { w.users.get u with buf := (w.users.get u).buf ++ copyChars (w.users.get u).single (w.net.get u).rx,
+      { w.users.get u with buf := b0 ++ copyChars (w.users.get u).single (w.net.get u).rx,
                            cmdInBuf := (w.users.get u).cmdInBuf ||
-                             hasCmd (w.users.get u).single ((w.users.get u).buf ++ copyChars (w.users.get u).single (w.net.get u).rx) }
+                             hasCmd (w.users.get u).single (b0 ++ copyChars (w.users.get u).single (w.net.get u).rx) }
     have h2 := netWeight_upd w.net u { w.net.get u with rx := [] }
     have h3 := wlen_copyChars (w.users.get u).single (w.net.get u).rx
     simp only [wlen_append, List.length_nil] at h1 h2
